@@ -105,7 +105,8 @@ def leaf_launch(draw, o: Opts, streams: List[int]) -> Dict[str, Any]:
             "kgap": pick(draw, [0, 0, 1, 2, 4]), "kdur": pick(draw, ([0] if o.allow_zero_kdur else []) + list(o.kdurs)),
             "kname": kname, "fault": fault, "bytes": pick(draw, [0, 4, 1024, 4096]),
             "bw": pick(draw, [0.0, 0.5, 1.25, 12.0, 100.0]),
-            "align": bool(o.align_ends and len(streams) > 1 and pick(draw, [False, False, False, True]))}
+            "align": bool(o.align_ends and len(streams) > 1 and pick(draw, [False, False, False, True])),
+            "host_stream": pick(draw, [None] * 7 + ["0x0", "0x55d0c8a3b2f0"])}
 
 
 @st.composite
@@ -263,6 +264,11 @@ def rank_program(draw, o: Opts, rank: int, nsteps: int, first_step: int) -> Dict
     return prog
 
 
+def host_call_cat(name: str) -> str:
+    """Kineto's category of a host API call: driver-API calls (cuLaunchKernel, ...) are 'cuda_driver'."""
+    return "cuda_driver" if name.startswith("cu") and not name.startswith("cuda") else "cuda_runtime"
+
+
 # ------------------------------------------------------------------------------------------------
 # simulation
 class Sim:
@@ -332,7 +338,10 @@ class Sim:
                     k_end = max(later)
             fault = node["fault"]
             if fault != "no_launch":
-                self._host(tid, "cuda_runtime", node["name"], ts, end_call, {"correlation": corr})
+                largs: Dict[str, Any] = {"correlation": corr}
+                if node.get("host_stream"):
+                    largs["stream"] = node["host_stream"]  # ROCm writes the stream handle of host calls as a hex string
+                self._host(tid, host_call_cat(node["name"]), node["name"], ts, end_call, largs)
             if fault != "no_kernel":
                 self.stream_free[s] = k_end
                 args: Dict[str, Any] = {"stream": s}
